@@ -237,13 +237,14 @@ def check(ctx, kind, sdef, tag):
         ctx.tally("string_model_skipped_no_string")
     else:
         op = 3 if kind == "dfa" else 4
-        if order_observed and len(sched_seen) == len(order) and all(c is not None for c in sched_seen):
-            sched = [[st(q) for q in cand] for cand in sched_seen]
-        else:
-            sched = [[q] for q in worder]      # fall back: force the rip order used for the AST model
-            ctx.tally("string_model_schedule_from_rip_order")
         full = 1 if (s is not None and len(s) <= STR_FULL_CAP) else 0
-        (ans,) = ctx.driver.batch([(12, op, enc.tree([tord, sched, full, []]))])
+        if order_observed and len(sched_seen) == len(order) and all(c is not None for c in sched_seen):
+            sched, forced = [[st(q) for q in cand] for cand in sched_seen], 0
+        else:
+            # fall back: rip along the order used for the AST model, without the degree rule (mode 2/3)
+            sched, forced = [[q] for q in worder], 2
+            ctx.tally("string_model_schedule_from_rip_order")
+        (ans,) = ctx.driver.batch([(12, op, enc.tree([tord, sched, full + forced, []]))])
         mres = enc.dec_res(ans[0]) if ans != [0, 99] and len(ans) == 3 else ("bad", ans)
         if mres[0] != "ok":
             ctx.violation(f"string model did not return a result: {mres}", dict(replay, correspondence="C12/string-model"),
@@ -255,7 +256,7 @@ def check(ctx, kind, sdef, tag):
                 # the degree rule of the model picked another state: the model is wrong or the code changed
                 ctx.tally("string_model_rip_order_differs")
                 ctx.structural += 1
-                (ans2,) = ctx.driver.batch([(12, op, enc.tree([tord, [[q] for q in worder], full, []]))])
+                (ans2,) = ctx.driver.batch([(12, op, enc.tree([tord, [[q] for q in worder], full + 2, []]))])
                 m2 = enc.dec_res(ans2[0])
                 if m2[0] == "ok":
                     ans = ans2
